@@ -8,3 +8,11 @@ func spdxFlow(c *Ctx, prop string)  {}
 func spdxLoops(c *Ctx, prop string) {}
 
 func selfTest(c *Ctx, repo, verif string, extra map[string]any) {}
+
+func cdxFlow(c *Ctx)                      {}
+func cdxLoops(c *Ctx, prop string)        {}
+func cdxTreeAssembly(c *Ctx, prop string) {}
+
+func unionRules(c *Ctx)    {}
+func aliasRules(c *Ctx)    {}
+func diffHelpers(c *Ctx)   {}
